@@ -10,10 +10,12 @@
 (*   Send:           send -> fwdsend -> {started -> forward}* (drain)      *)
 (*                        -> gcmark -> gcsweep                             *)
 (* (the yield points recv and limit are passed through: every sender is    *)
-(* within the limits.  The epoch clock does not advance, so mark selects   *)
-(* only buffers whose lastUsed is still the zero time: entries that were   *)
-(* created but to which no message has been added yet; sweep removes such  *)
-(* an entry AND the started mark of its topic.)                            *)
+(* within the limits.  While the epoch clock stands still maybeGC returns  *)
+(* at its period test and the gcmark / gcsweep points are not reached      *)
+(* (GCRuns = FALSE).  The gc steps describe the collector of the code      *)
+(* before its repair (GCRuns = TRUE): mark selected buffers whose lastUsed *)
+(* was still the zero time -- created, nothing added yet -- and sweep      *)
+(* removed such a buffer AND the started mark of its topic.)               *)
 (* Buffered lists are objects with identity (the code holds a pointer to a *)
 (* storedMessages that may meanwhile have been removed from the map).      *)
 (***************************************************************************)
@@ -22,7 +24,9 @@ EXTENDS Integers, Sequences, FiniteSets, TLC
 CONSTANTS Threads,   \* thread names (strings)
           Prog,      \* [Threads -> Seq(op)], op = [k |-> "recv", m |-> [id, src, topic]] | [k |-> "send", t |-> topic]
           Topics,
-          MaxLists
+          MaxLists,
+          GCRuns     \* whether maybeGC gets past its period test (FALSE while the epoch clock stands still: the
+                     \* collector runs only once GCExpire/GCSweep epochs have passed since the last collection)
 
 None == [id |-> 0, src |-> 0, topic |-> ""]
 
@@ -66,7 +70,8 @@ Advance(t, r) ==
   IF r.nested
     THEN IF r.di < Len(r.snap)
            THEN [r EXCEPT !.di = r.di + 1, !.cur = r.snap[r.di + 1], !.pc = "started", !.held = 0]
-           ELSE [r EXCEPT !.pc = "gcmark", !.cur = None, !.held = 0]      \* drain finished: deferred maybeGC
+           ELSE IF GCRuns THEN [r EXCEPT !.pc = "gcmark", !.cur = None, !.held = 0]      \* drain finished: deferred maybeGC
+                ELSE NextOp(t, r)
     ELSE NextOp(t, r)
 
 \* is an earlier message of the same sender and topic still waiting in some thread's drain snapshot?
@@ -113,8 +118,11 @@ Step(t) ==
             LET tp == Prog[t][r.oi].t IN
             /\ started' = started \cup {tp}
             /\ pmap' = [pmap EXCEPT ![tp] = 0]
+            \* the senders of the drained buffer no longer have the topic in flight
+            /\ inflight' = IF pmap[tp] = 0 THEN inflight
+                           ELSE {x \in inflight : ~(x[2] = tp /\ \E i \in DOMAIN lists[pmap[tp]] : lists[pmap[tp]][i].src = x[1])}
             /\ th' = [th EXCEPT ![t].pc = "fwdsend", ![t].snap = IF pmap[tp] = 0 THEN <<>> ELSE lists[pmap[tp]]]
-            /\ UNCHANGED <<lists, nl, inflight, handed, fsent, devStale, devOvertake, devSweep>>
+            /\ UNCHANGED <<lists, nl, handed, fsent, devStale, devOvertake, devSweep>>
        [] r.pc = "fwdsend" ->     \* ForwardSend, then the deferred drain begins
             /\ fsent' = Append(fsent, Prog[t][r.oi].t)
             /\ th' = [th EXCEPT ![t] = Advance(t, [r EXCEPT !.nested = TRUE, !.di = 0])]
